@@ -31,7 +31,9 @@ RULE = ("models: (i) to_model_proto() and to_function_proto() of generated scrip
         "collide after clean-up, names shadowing the generated imports, names equal to attribute names, v<N> names, dotted graph "
         f"I/O, multi-output ops, no graph inputs); (iii) {len(G.OUTSIDE_STRATA)} models outside the class (sequence values / "
         "sequence outputs, Scan, sparse initializer, graph attribute on another op). Every model passes onnx.checker (full) and runs "
-        "on ORT on 3 inputs before use. All 16 (rename, use_operators, inline_const, skip_initializers) combinations per model. "
+        "on ORT on 3 inputs before use; every DAG with graph inputs is additionally exported as a FunctionProto (main graph as "
+        "function body, initializers as Constant nodes) so that rename=True is exercised past the signature. All 16 (rename, "
+        "use_operators, inline_const, skip_initializers) combinations per model; quick = 2 rounds over all strata, thorough = 42. "
         "non-trivial = model for which at least one option combination reached the value comparison; distinct = (stratum, "
         "digest of the serialized model)")
 ASSUMPTIONS = [
